@@ -30,6 +30,8 @@ pub struct PoolRun {
     pub wrong_path: bool,
     /// what the next native swap attaches (see `swap`); reset to 0 by every swap
     pub funds_mode: u8,
+    /// the pair was instantiated directly (owner = the test's owner), not through the factory
+    pub direct: bool,
 }
 
 pub const USERS: [&str; 3] = ["user1", "user2", "user3"];
@@ -80,6 +82,40 @@ impl PoolRun {
             ptype,
             wrong_path: false,
             funds_mode: 0,
+            direct: false,
+        }
+    }
+
+    /// The same pool, but instantiated directly - the way the factory would, except that cw20 assets are spelled in upper
+    /// case (a valid spelling of the same address, which the factory does not accept) - and owned by the test's owner.
+    pub fn new_direct(kinds: [bool; 2], decimals: [u8; 2], fees: [u128; 3], ptype: PairType, fund: u128) -> PoolRun {
+        let mut p = PoolRun::new(kinds, decimals, fees, ptype.clone(), fund);
+        let sp = |a: &A| match a.info() {
+            white_whale_std::pool_network::asset::AssetInfo::Token { contract_addr } => white_whale_std::pool_network::asset::AssetInfo::Token { contract_addr: contract_addr.to_uppercase() },
+            x => x };
+        let pf = pool_fee(dec_atomics(fees[0]), dec_atomics(fees[1]), dec_atomics(fees[2]));
+        let owner = p.w.owner.clone();
+        let r = cw_multi_test::Executor::instantiate_contract(&mut p.w.app, p.w.codes.pair, owner.clone(),
+            &white_whale_std::pool_network::pair::InstantiateMsg { asset_infos: [sp(&p.assets[0]), sp(&p.assets[1])], token_code_id: p.w.codes.token,
+                asset_decimals: decimals, pool_fees: pf, fee_collector_addr: p.collector.to_string(), pair_type: ptype, token_factory_lp: false },
+            &[], "pair_direct", None);
+        let pair = match r { Ok(a) => a, Err(_) => return p };      // (refused: keep the factory's pair)
+        let info: white_whale_std::pool_network::asset::PairInfo = p.w.query(&pair, &QueryMsg::Pair {}).unwrap();
+        let lp = match info.liquidity_token { white_whale_std::pool_network::asset::AssetInfo::Token { contract_addr } => Addr::unchecked(contract_addr), _ => return p };
+        p.w.register("pair_direct", &pair);
+        p.w.register("pair_direct_lp", &lp);
+        p.w.tokens.push(lp.clone());
+        p.pair = pair; p.lp = lp; p.direct = true;
+        p
+    }
+
+    /// the owner's update of fees / switches: through the factory, or straight to a directly instantiated pair
+    pub fn owner_update(&mut self, sender: &Addr, fees: Option<white_whale_std::pool_network::pair::PoolFee>, tog: Option<white_whale_std::pool_network::pair::FeatureToggle>) -> Res {
+        if self.direct {
+            self.w.exec(sender, &self.pair.clone(), &ExecuteMsg::UpdateConfig { owner: None, fee_collector_addr: None, pool_fees: fees, feature_toggle: tog }, &[])
+        } else {
+            self.w.exec(sender, &self.factory.clone(), &white_whale_std::pool_network::factory::ExecuteMsg::UpdatePairConfig {
+                pair_addr: self.pair.to_string(), owner: None, fee_collector_addr: None, pool_fees: fees, feature_toggle: tog }, &[])
         }
     }
 
@@ -348,7 +384,9 @@ pub fn run_random(rec: &mut Rec, seed: u64, run: u64, nops: usize, stable: bool)
     let (cfg, amp) = if stable { stable_cfg(&mut r, run) } else { (random_cfg(&mut r, run), 0) };
     let fund: u128 = 1u128 << 122;
     let ptype = if stable { PairType::StableSwap { amp } } else { PairType::ConstantProduct };
-    let mut p = PoolRun::new(cfg.kinds, cfg.decimals, cfg.fees, ptype, fund);
+    // every fourth pool with a cw20 asset is instantiated directly, with that asset's address spelled in upper case
+    let mut p = if (run / 4) % 4 == 3 && cfg.kinds != [true, true] { PoolRun::new_direct(cfg.kinds, cfg.decimals, cfg.fees, ptype, fund) }
+                else { PoolRun::new(cfg.kinds, cfg.decimals, cfg.fees, ptype, fund) };
     rec.emit(json!({
         "ev": "reset", "suite": "pool", "run": run, "seed": seed.to_string(), "ops": nops,
         "extra": {"kind": if stable { "stable" } else { "cp" }},
@@ -558,12 +596,8 @@ pub fn run_random(rec: &mut Rec, seed: u64, run: u64, nops: usize, stable: bool)
                 let (d, wd, sw) = (flip(&mut r, cur.feature_toggle.deposits_enabled), flip(&mut r, cur.feature_toggle.withdrawals_enabled), flip(&mut r, cur.feature_toggle.swaps_enabled));
                 let by_owner = r.gen_bool(0.85);
                 let sender = if by_owner { p.w.owner.clone() } else { p.user(ui) };
-                let msg = white_whale_std::pool_network::factory::ExecuteMsg::UpdatePairConfig {
-                    pair_addr: p.pair.to_string(), owner: None, fee_collector_addr: None, pool_fees: None,
-                    feature_toggle: Some(white_whale_std::pool_network::pair::FeatureToggle { withdrawals_enabled: wd, deposits_enabled: d, swaps_enabled: sw }),
-                };
                 let dpre = p.w.digest();
-                let rs = p.w.exec(&sender, &p.factory.clone(), &msg, &[]);
+                let rs = p.owner_update(&sender, None, Some(white_whale_std::pool_network::pair::FeatureToggle { withdrawals_enabled: wd, deposits_enabled: d, swaps_enabled: sw }));
                 let dpost = p.w.digest();
                 ev.insert("ev".into(), json!("settog"));
                 ev.insert("actor".into(), json!(if by_owner { "owner" } else { USERS[ui] }));
@@ -586,15 +620,8 @@ pub fn run_random(rec: &mut Rec, seed: u64, run: u64, nops: usize, stable: bool)
                 };
                 let by_owner = r.gen_bool(0.85);
                 let sender = if by_owner { p.w.owner.clone() } else { p.user(ui) };
-                let msg = white_whale_std::pool_network::factory::ExecuteMsg::UpdatePairConfig {
-                    pair_addr: p.pair.to_string(),
-                    owner: None,
-                    fee_collector_addr: None,
-                    pool_fees: Some(pool_fee(dec_atomics(f[0]), dec_atomics(f[1]), dec_atomics(f[2]))),
-                    feature_toggle: None,
-                };
                 let dpre = p.w.digest();
-                let rs = p.w.exec(&sender, &p.factory.clone(), &msg, &[]);
+                let rs = p.owner_update(&sender, Some(pool_fee(dec_atomics(f[0]), dec_atomics(f[1]), dec_atomics(f[2]))), None);
                 let dpost = p.w.digest();
                 ev.insert("ev".into(), json!("setfees"));
                 ev.insert("actor".into(), json!(if by_owner { "owner" } else { USERS[ui] }));
